@@ -348,6 +348,41 @@ theorem diff_spec {a b : List Cell} (ha : kindsConsistent a = true) :
   rw [h2.mem_iff, List.mem_filter]
   simp [Triangle.mem]
 
+/-- `a | b` is `a + b`: the mixin chains both operands into the constructor, which keeps duplicates -/
+theorem union_eq_add (a b : List Cell) : Triangle.union a b = Triangle.add a b := rfl
+
+/-- `a | b`, when it succeeds, is the sorted permutation of all cells of both operands -/
+theorem union_spec {a b t : List Cell} (h : Triangle.union a b = .ok t) :
+    t.Perm (a ++ b) ∧ t.Pairwise (fun x y => Cell.le x y) := ⟨ofCells_perm h, ofCells_sorted h⟩
+
+/-- `a | b == b | a` (as sequences, hence `==` and equal hashes), cells at one coordinate being
+identical cells -/
+theorem union_comm {a b : List Cell}
+    (hdup : ∀ x y, x ∈ a ++ b → y ∈ a ++ b → Cell.cmp x y = .eq → x = y) :
+    Triangle.union a b = Triangle.union b a :=
+  ofCells_perm_invariant List.perm_append_comm hdup
+
+/-- re-uniting the parts of a canonical triangle (however they interleave) gives back the triangle -/
+theorem union_of_parts {a b t : List Cell} (ht : Canonical t) (hp : (a ++ b).Perm t)
+    (hdup : ∀ x y, x ∈ t → y ∈ t → Cell.cmp x y = .eq → x = y) : Triangle.union a b = .ok t := by
+  unfold Triangle.union
+  rw [ofCells_perm_invariant hp (fun x y hx hy => hdup x y (hp.mem_iff.mp hx) (hp.mem_iff.mp hy))]
+  exact ofCells_idem ht
+
+/-- `a ^ b`, when it succeeds, is the sorted permutation of the cells of `a` not in `b` and the
+cells of `b` not in `a` -/
+theorem symdiff_spec {a b t : List Cell} (h : Triangle.symdiff a b = .ok t) :
+    t.Perm (a.filter (fun c => !Triangle.mem c b) ++ b.filter (fun c => !Triangle.mem c a)) ∧
+    t.Pairwise (fun x y => Cell.le x y) := by
+  simp only [Triangle.symdiff, bind, Except.bind] at h
+  split at h
+  · cases h
+  · rename_i x hx
+    split at h
+    · cases h
+    · rename_i y hy
+      refine ⟨(ofCells_perm h).trans ((ofCells_perm hx).append (ofCells_perm hy)), ofCells_sorted h⟩
+
 /-- the three set tests fit together: `a.isdisjoint(b)` iff `a & b` is empty -/
 theorem isdisjoint_iff_inter_empty {a b t : List Cell} (h : Triangle.inter a b = .ok t) :
     Triangle.isdisjoint a b = true ↔ t = [] := by
@@ -443,6 +478,39 @@ theorem spec_diff {a b t : List Cell} (ha : ∀ x ∈ a, Spec.wfCell x = true)
   simp only [Spec.diffClause, Bool.and_eq_true, List.isPerm_iff, this]
   exact ⟨ofCells_perm h, chainB_of_pairwise (ofCells_sorted h)⟩
 
+theorem spec_union {a b t : List Cell} (ha : ∀ x ∈ a, Spec.wfCell x = true)
+    (hb : ∀ x ∈ b, Spec.wfCell x = true) (h : Triangle.union a b = .ok t) :
+    Spec.unionClause a b t = true := by
+  have wa := fun x hx => Spec.wfCell_iff.mp (ha x hx)
+  have wb := fun x hx => Spec.wfCell_iff.mp (hb x hx)
+  have hp := ofCells_perm h
+  have wt : ∀ x ∈ t, x.WF := fun x hx => by
+    rcases List.mem_append.mp (hp.mem_iff.mp hx) with h' | h'
+    · exact wa x h'
+    · exact wb x h'
+  have self_in : ∀ (c : Cell) (l : List Cell), c.WF → (∀ x ∈ l, x.WF) → c ∈ l → Spec.isIn c l = true :=
+    fun c l hc hl hm => by
+      rw [Spec.isIn_eq_mem hc hl, mem_iff]; exact ⟨c, hm, Bermuda.cellEq_refl c⟩
+  simp only [Spec.unionClause, Bool.and_eq_true, Bool.or_eq_true, List.all_eq_true, List.isPerm_iff]
+  refine ⟨⟨⟨⟨chainB_of_pairwise (ofCells_sorted h), fun c hc => ?_⟩, fun c hc => ?_⟩, fun c hc => ?_⟩, Or.inr hp⟩
+  · exact self_in c t (wa c hc) wt (hp.mem_iff.mpr (List.mem_append_left _ hc))
+  · exact self_in c t (wb c hc) wt (hp.mem_iff.mpr (List.mem_append_right _ hc))
+  · rcases List.mem_append.mp (hp.mem_iff.mp hc) with h' | h'
+    · exact Or.inl (self_in c a (wa c h') wa h')
+    · exact Or.inr (self_in c b (wb c h') wb h')
+
+theorem spec_xor {a b t : List Cell} (ha : ∀ x ∈ a, Spec.wfCell x = true)
+    (hb : ∀ x ∈ b, Spec.wfCell x = true) (h : Triangle.symdiff a b = .ok t) :
+    Spec.xorClause a b t = true := by
+  have wa := fun x hx => Spec.wfCell_iff.mp (ha x hx)
+  have wb := fun x hx => Spec.wfCell_iff.mp (hb x hx)
+  have e1 : a.filter (fun c => !Spec.isIn c b) = a.filter (fun c => !Triangle.mem c b) :=
+    List.filter_congr fun c hc => by rw [Spec.isIn_eq_mem (wa c hc) wb]
+  have e2 : b.filter (fun c => !Spec.isIn c a) = b.filter (fun c => !Triangle.mem c a) :=
+    List.filter_congr fun c hc => by rw [Spec.isIn_eq_mem (wb c hc) wa]
+  simp only [Spec.xorClause, Bool.and_eq_true, List.isPerm_iff, e1, e2]
+  exact ⟨(symdiff_spec h).1, chainB_of_pairwise (symdiff_spec h).2⟩
+
 /-! ### 7. non-vacuity: concrete cells and triangles meet the hypotheses -/
 
 def exMd : Metadata := { country := some "US", details := [("coverage", .str "BI")] }
@@ -531,6 +599,21 @@ example : ∃ t', Triangle.ofCells (exT.set 1 { exB with md := { exMd with count
     (by decide)
   exact ⟨t', ht, (triEq_edit_meta_false (t := exT) (i := 1) (by decide) exT_ok (by decide) (by decide)
     (by decide) ht).1⟩
+
+/-- re-uniting interleaving parts in either order gives one and the same triangle: the hypotheses of
+`union_of_parts` are met by the triangle constructed from `[exB, exA]` -/
+example : ∃ t, Triangle.union [exB] [exA] = .ok t ∧ Triangle.union [exA] [exB] = .ok t := by
+  obtain ⟨t, ht⟩ := (ofCells_ok_iff ([exB] ++ [exA])).mpr (by decide)
+  have hc : Canonical t := ofCells_canonical ht (by decide)
+  have hp : ([exB] ++ [exA]).Perm t := (ofCells_perm ht).symm
+  have hdup : ∀ x y, x ∈ t → y ∈ t → Cell.cmp x y = .eq → x = y := by
+    intro x y hx hy hxy
+    have hx' := hp.mem_iff.mpr hx
+    have hy' := hp.mem_iff.mpr hy
+    have inj : ∀ a ∈ [exB] ++ [exA], ∀ b ∈ [exB] ++ [exA], a.coord = b.coord → a = b := by decide
+    have canon : ∀ a ∈ [exB] ++ [exA], a.md.Canon := by decide
+    exact inj x hx' y hy' ((Cell.cmp_eq_eq (canon x hx') (canon y hy')).mp hxy)
+  exact ⟨t, union_of_parts hc hp hdup, union_of_parts hc (List.perm_append_comm.trans hp) hdup⟩
 
 example : triEq exT.dropLast exT = false := (triEq_dropLast_false (by decide)).1
 
